@@ -19,15 +19,19 @@ _MP = multiprocessing.get_context("spawn")
 from .common import Violation
 
 PROP = "C14"
-LEAN_TARGETS = ["Props.C14", "driver"]
-AUDIT_IMPORTS = ["Props.C14"]
+LEAN_TARGETS = ["Props.C14", "Proofs.GenEarlyStop", "driver"]
+AUDIT_IMPORTS = ["Props.C14", "Proofs.GenEarlyStop"]
 NS = "Pysersic.Props.C14."
 OBLIGATIONS = [NS + t for t in [
     "calls_bound", "round_calls_bound", "patience_bound", "patience_window", "restart_from_best",
     "round_chained", "round_exponent", "bar_chain", "bar0_value", "adopt_strict",
     "result_first_argmin", "result_start_if_none", "recorded_losses", "run_isSome_iff",
     "bar0_ne_nan", "result_single_round_nan_first", "call_sites_valid",
-]]
+]] + [
+    # the routine as TRANSLATED from the source on this run (Gen/EarlyStopProg.lean, tools/translate_prog.py) returns what the
+    # model returns and makes the same update calls — for every history and configuration
+    "Pysersic.Proofs.GenEarlyStop.gen_run_eq", "Pysersic.Proofs.GenEarlyStop.gen_calls_eq",
+]
 MIRRORED_FILES = ["pysersic/pysersic.py"]
 ASSUMPTIONS = [
     "the SVI object is abstracted to (state identity, loss) per update call; Adam, ELBO estimation and jit are not modelled",
@@ -323,6 +327,9 @@ def gen_exhaustive(max_len):
 def run_cases(ctx, cases, workers):
     lines = [model_line(c, t) for c, t in cases]
     model_out = ctx.driver.ask(lines)
+    # the translated program on the same requests (validates the translator's reading of the source)
+    gen_out = ctx.driver.ask(["esgen" + ln[2:] for ln in lines])
+    run_cases.gen_out = gen_out
     if workers > 1 and len(cases) > 200:
         with ProcessPoolExecutor(max_workers=workers, mp_context=_MP) as ex:
             real_out = list(ex.map(_real_job, cases, chunksize=max(1, len(cases) // (workers * 8))))
@@ -342,6 +349,8 @@ def correspondence(ctx):
         cases += gen_exhaustive(9)
         cases += gen_random(rng, 30000)
     model_out, real_out = run_cases(ctx, cases, ctx.workers)
+    gen_out = run_cases.gen_out
+    stats_seen = []
     disagreements, violations = [], []
     distinct = set()
     stats = dict(broke_early=0, hit_max_train=0, nan_losses=0, name_error=0, adopted_none=0,
@@ -352,6 +361,9 @@ def correspondence(ctx):
             distinct.add(key)
         if m != r:
             disagreements.append(dict(cfg=list(cfg), losses=toks, model=m, real=r))
+        elif gen_out[len(stats_seen)] != r:
+            disagreements.append(dict(cfg=list(cfg), losses=toks, translated_program=gen_out[len(stats_seen)], real=r))
+        stats_seen.append(0)
         if raw is None:
             stats["name_error"] += 1
             continue
@@ -366,7 +378,7 @@ def correspondence(ctx):
         violations += check_case_oracle(cfg, toks, raw)
     samples = [dict(cfg=list(c), losses=t[:12], real=r[0]) for (c, t), r in list(zip(cases, real_out))[:3]]
     return dict(
-        name="early_stop_trace_vs_Pysersic.EarlyStop.run",
+        name="early_stop_trace_vs_Pysersic.EarlyStop.run_and_translated_Gen.EarlyStopProg.run",
         evaluations=len(cases), distinct_nontrivial=len(distinct),
         rule=("corpus + every history over {nan,inf,1,2} for all configs with reachable length ≤ "
               f"{5 if ctx.tier == 'quick' else 9} + seeded random histories over {ALPHA_RANDOM} "
